@@ -8,6 +8,7 @@
 package c09
 
 import (
+	"context"
 	"fmt"
 	"runtime"
 	"sort"
@@ -23,7 +24,7 @@ import (
 
 func init() { vh.Register("C09", Run) }
 
-const cid = 1
+const firstCid = 1
 
 // the harness's own list model: append at the end, swap-remove from the end
 func swapRemove(rs []int, i int) []int {
@@ -60,6 +61,7 @@ type worker struct {
 	id    int
 	rig   *rhpx.Rig
 	s     *rhpx.Sess
+	cid   int   // the contract currently exercised (changes when it is refreshed)
 	cur   []int // the harness's expectation of the contract's roots
 	next  int   // next fresh sector id
 	maxID int
@@ -72,17 +74,17 @@ func newWorker(id, sectors int) (*worker, error) {
 	if err != nil {
 		return nil, err
 	}
-	w := &worker{id: id, rig: rig, s: rhpx.NewSess(rig), next: 1, maxID: sectors, acct: 10}
+	w := &worker{id: id, rig: rig, s: rhpx.NewSess(rig), next: 1, maxID: sectors, acct: 10, cid: firstCid}
 	c, err := rig.Form(rhpx.Key(rhpx.RenterKeyID), types.Siacoins(100000), types.Siacoins(200000), 400)
 	if err != nil {
 		return nil, err
 	}
-	w.s.AddContract(cid, c.ID)
+	w.s.AddContract(w.cid, c.ID)
 	for i := 1; i <= sectors; i++ {
 		w.s.StoreSector(i)
 	}
 	// an account to read sectors back with
-	res := w.s.Fund(rhpx.FundArgs{Cid: cid, Deposits: []rhpx.Deposit{{Account: w.acct, Amount: types.Siacoins(1000)}}, Sig: rhpx.Honest})
+	res := w.s.Fund(rhpx.FundArgs{Cid: w.cid, Deposits: []rhpx.Deposit{{Account: w.acct, Amount: types.Siacoins(1000)}}, Sig: rhpx.Honest})
 	if res.Cls != "ok" {
 		return nil, fmt.Errorf("funding the read-back account failed: %s", res.Impl)
 	}
@@ -117,7 +119,7 @@ func (w *worker) resize(n int) error {
 		}
 		for len(is) > 0 {
 			k := min(len(is), 1000)
-			res, _ := w.s.CFree(cid, w.s.GoodPrices(), is[:k])
+			res, _ := w.s.CFree(w.cid, w.s.GoodPrices(), is[:k])
 			if res.Cls != "ok" {
 				return fmt.Errorf("setup free failed: %s", res.Impl)
 			}
@@ -140,7 +142,7 @@ func (w *worker) resize(n int) error {
 				add = append(add, id)
 			}
 		}
-		res, _ := w.s.CAppend(cid, w.s.GoodPrices(), add)
+		res, _ := w.s.CAppend(w.cid, w.s.GoodPrices(), add)
 		if res.Cls != "ok" {
 			return fmt.Errorf("setup append failed: %s", res.Impl)
 		}
@@ -157,7 +159,7 @@ type snap struct {
 }
 
 func (w *worker) snap() snap {
-	st, _ := w.rig.HostState(w.s.CID(cid))
+	st, _ := w.rig.HostState(w.s.CID(w.cid))
 	b, _ := w.rig.EC.AccountBalance(rhpx.Acct(w.acct))
 	return snap{st.Revision, st.Roots, b}
 }
@@ -177,7 +179,7 @@ func (a snap) same(b snap) bool {
 // begin starts a self-contained case from the host's current state.
 func (w *worker) begin(name string, stored []int) *vh.Case {
 	c := &vh.Case{Name: fmt.Sprintf("w%d-%s", w.id, name), Model: w.s.CaseHeader()}
-	for _, l := range w.s.AdoptLines(rhpx.Obs{Contracts: []int{cid}, Accounts: []int{w.acct}}) {
+	for _, l := range w.s.AdoptLines(rhpx.Obs{Contracts: []int{w.cid}, Accounts: []int{w.acct}}) {
 		c.Op(l, "ok")
 	}
 	seen := map[int]bool{}
@@ -191,7 +193,7 @@ func (w *worker) begin(name string, stored []int) *vh.Case {
 }
 
 func (w *worker) observe(c *vh.Case) {
-	o, i := w.s.Observe(rhpx.Obs{Contracts: []int{cid}, Accounts: []int{w.acct}})
+	o, i := w.s.Observe(rhpx.Obs{Contracts: []int{w.cid}, Accounts: []int{w.acct}})
 	c.Op(o, i)
 }
 
@@ -201,7 +203,7 @@ func (w *worker) check(c *vh.Case, rpc, variant string, before snap, res rhpx.Re
 	for _, n := range res.Notes {
 		c.Oracle("proof:"+rpc+":"+variant, "%s", n)
 	}
-	st, err := w.rig.HostState(w.s.CID(cid))
+	st, err := w.rig.HostState(w.s.CID(w.cid))
 	if err != nil {
 		c.Oracle("lost-contract:"+rpc, "contract vanished: %v", err)
 		return
@@ -258,7 +260,7 @@ func (w *worker) freeClient(n int, is []uint64) error {
 	}
 	c := w.begin(fmt.Sprintf("cfree-n%d-%s", n, seqName(is)), nil)
 	before := w.snap()
-	res, _ := w.s.CFree(cid, w.s.GoodPrices(), is)
+	res, _ := w.s.CFree(w.cid, w.s.GoodPrices(), is)
 	c.Op(res.Op, res.Impl)
 	inRange := true
 	for _, i := range is {
@@ -295,7 +297,7 @@ func (w *worker) freeRaw(n int, is []uint64) error {
 	}
 	c := w.begin(fmt.Sprintf("rfree-n%d-%s", n, seqName(is)), nil)
 	before := w.snap()
-	res := w.s.Free(rhpx.FreeArgs{Cid: cid, Prices: w.s.GoodPrices(), Chal: rhpx.Honest, Indices: is, Second: rhpx.Honest})
+	res := w.s.Free(rhpx.FreeArgs{Cid: w.cid, Prices: w.s.GoodPrices(), Chal: rhpx.Honest, Indices: is, Second: rhpx.Honest})
 	c.Op(res.Op, res.Impl)
 	valid := true
 	seen := map[uint64]bool{}
@@ -372,7 +374,7 @@ func variants() []variant {
 		{name: "sig-then-drop", second: rhpx.Honest, bang: true, chal: rhpx.Honest, commit: true},
 		{name: "sig-explicit-ok", second: rhpx.SigSpec{Kind: "b", Key: rhpx.RenterKeyID}, chal: rhpx.Honest, commit: true},
 		{name: "chal-garbage", second: rhpx.Honest, chal: rhpx.BadS},
-		{name: "chal-wrong-key", second: rhpx.Honest, chal: rhpx.SigSpec{Kind: "c", Key: stranger, Cid: cid, N: 0}},
+		{name: "chal-wrong-key", second: rhpx.Honest, chal: rhpx.SigSpec{Kind: "c", Key: stranger, Cid: 0, N: 0}},
 		{name: "prices-expired", second: rhpx.Honest, chal: rhpx.Honest, prices: func(p rhpx.PriceSpec) rhpx.PriceSpec { p.Delta = -3600; return p }},
 		{name: "prices-foreign", second: rhpx.Honest, chal: rhpx.Honest, prices: func(p rhpx.PriceSpec) rhpx.PriceSpec { p.Sig = rhpx.PS{Kind: "s", Key: stranger}; return p }},
 		{name: "prices-altered", second: rhpx.Honest, chal: rhpx.Honest, prices: func(p rhpx.PriceSpec) rhpx.PriceSpec { p.Sig = rhpx.PS{Kind: "o", Key: rhpx.HostKeyID}; return p }},
@@ -397,8 +399,9 @@ func (w *worker) faultFree(n int, is []uint64, v variant) error {
 	chal := v.chal
 	if chal.Kind == "c" && chal.N == 0 {
 		chal.N = before.rev.RevisionNumber + 1
+		chal.Cid = w.cid
 	}
-	res := w.s.Free(rhpx.FreeArgs{Cid: cid, Prices: ps, Chal: chal, Indices: is, Second: v.second, Bang: v.bang, NewIDs: expect})
+	res := w.s.Free(rhpx.FreeArgs{Cid: w.cid, Prices: ps, Chal: chal, Indices: is, Second: v.second, Bang: v.bang, NewIDs: expect})
 	c.Op(res.Op, res.Impl)
 	if v.commit {
 		w.check(c, "free", v.name, before, res, false, expect)
@@ -437,8 +440,9 @@ func (w *worker) faultAppend(n int, add []int, v variant) error {
 	chal := v.chal
 	if chal.Kind == "c" && chal.N == 0 {
 		chal.N = before.rev.RevisionNumber + 1
+		chal.Cid = w.cid
 	}
-	res := w.s.Append(rhpx.AppendArgs{Cid: cid, Prices: ps, Chal: chal, Sectors: add, Second: v.second, Bang: v.bang, NewIDs: expect})
+	res := w.s.Append(rhpx.AppendArgs{Cid: w.cid, Prices: ps, Chal: chal, Sectors: add, Second: v.second, Bang: v.bang, NewIDs: expect})
 	c.Op(res.Op, res.Impl)
 	if v.commit {
 		w.check(c, "append", v.name, before, res, false, expect)
@@ -472,13 +476,13 @@ func (w *worker) faultRoots(n int, off, length uint64, v variant) error {
 	switch v.name {
 	case "abort", "drop":
 		pr, _ := w.s.Prices(ps)
-		res = w.s.Garbage(proto4.RPCSectorRootsID, &proto4.RPCSectorRootsRequest{Prices: pr, ContractID: w.s.CID(cid), Offset: off, Length: length})
+		res = w.s.Garbage(proto4.RPCSectorRootsID, &proto4.RPCSectorRootsRequest{Prices: pr, ContractID: w.s.CID(w.cid), Offset: off, Length: length})
 	default:
 		sig := v.second
 		if v.chal.Kind != "h" { // challenge variants do not exist for this RPC: use a bad signature instead
 			sig = rhpx.BadS
 		}
-		res = w.s.Roots(rhpx.RootsArgs{Cid: cid, Prices: ps, Offset: off, Len: length, Sig: sig, CurIDs: w.cur})
+		res = w.s.Roots(rhpx.RootsArgs{Cid: w.cid, Prices: ps, Offset: off, Len: length, Sig: sig, CurIDs: w.cur})
 	}
 	c.Op(res.Op, res.Impl)
 	commit := v.commit && v.chal.Kind == "h" && v.prices == nil
@@ -504,7 +508,7 @@ func (w *worker) listAndRead(c *vh.Case, off, length uint64, read bool) {
 // listAndReadN reads back at most maxRead of the listed sectors (each read hashes a whole sector).
 func (w *worker) listAndReadN(c *vh.Case, off, length uint64, read bool, maxRead int) {
 	before := w.snap()
-	res, sent := w.s.CRoots(cid, w.s.GoodPrices(), off, length)
+	res, sent := w.s.CRoots(w.cid, w.s.GoodPrices(), off, length)
 	if !sent {
 		return
 	}
@@ -549,7 +553,7 @@ func (w *worker) window(n int, off, length uint64, raw bool) error {
 	c := w.begin(fmt.Sprintf("roots-n%d-%d-%d-%v", n, off, length, raw), nil)
 	if raw {
 		before := w.snap()
-		res := w.s.Roots(rhpx.RootsArgs{Cid: cid, Prices: w.s.GoodPrices(), Offset: off, Len: length, Sig: rhpx.Honest, CurIDs: w.cur})
+		res := w.s.Roots(rhpx.RootsArgs{Cid: w.cid, Prices: w.s.GoodPrices(), Offset: off, Len: length, Sig: rhpx.Honest, CurIDs: w.cur})
 		c.Op(res.Op, res.Impl)
 		inRange := length > 0 && off+length <= uint64(n)
 		if inRange != (res.Cls == "ok") {
@@ -583,6 +587,14 @@ func (w *worker) history(name string, rng *vh.RNG, steps, maxN int) error {
 	for step := 0; step < steps; step++ {
 		n := len(w.cur)
 		before := w.snap()
+		if rng.Chance(1, 120) && len(w.cur) > 0 {
+			kind := []string{"refresh-full", "refresh-partial", "renew"}[rng.Intn(3)]
+			if err := w.refreshInto(c, kind); err != nil {
+				c.Oracle("harness-setup", "%v", err)
+			}
+			c.Tags = append(c.Tags, "in-history:"+kind)
+			continue
+		}
 		switch k := rng.Intn(10); {
 		case k < 4 && n < maxN: // append
 			cnt := 1 + rng.Intn(min(6, maxN-n))
@@ -616,8 +628,9 @@ func (w *worker) history(name string, rng *vh.RNG, steps, maxN int) error {
 				chal := v.chal
 				if chal.Kind == "c" && chal.N == 0 {
 					chal.N = before.rev.RevisionNumber + 1
+					chal.Cid = w.cid
 				}
-				res := w.s.Append(rhpx.AppendArgs{Cid: cid, Prices: ps, Chal: chal, Sectors: add, Second: v.second, Bang: v.bang, NewIDs: expect})
+				res := w.s.Append(rhpx.AppendArgs{Cid: w.cid, Prices: ps, Chal: chal, Sectors: add, Second: v.second, Bang: v.bang, NewIDs: expect})
 				c.Op(res.Op, res.Impl)
 				if v.commit {
 					w.check(c, "append", v.name, before, res, false, expect)
@@ -626,7 +639,7 @@ func (w *worker) history(name string, rng *vh.RNG, steps, maxN int) error {
 				}
 				c.Tags = append(c.Tags, "fault:"+v.name)
 			} else {
-				res, _ := w.s.CAppend(cid, w.s.GoodPrices(), add)
+				res, _ := w.s.CAppend(w.cid, w.s.GoodPrices(), add)
 				c.Op(res.Op, res.Impl)
 				if res.Cls != "ok" {
 					c.Oracle("client-append-rejected", "append of %v failed: %s", add, res.Impl)
@@ -644,7 +657,7 @@ func (w *worker) history(name string, rng *vh.RNG, steps, maxN int) error {
 			}
 			switch rng.Intn(4) {
 			case 0: // raw, as given
-				res := w.s.Free(rhpx.FreeArgs{Cid: cid, Prices: w.s.GoodPrices(), Chal: rhpx.Honest, Indices: is, Second: rhpx.Honest})
+				res := w.s.Free(rhpx.FreeArgs{Cid: w.cid, Prices: w.s.GoodPrices(), Chal: rhpx.Honest, Indices: is, Second: rhpx.Honest})
 				c.Op(res.Op, res.Impl)
 				w.check(c, "free", "raw", before, res, res.Cls != "ok", nil)
 			case 1: // fault on a normalised request
@@ -669,8 +682,9 @@ func (w *worker) history(name string, rng *vh.RNG, steps, maxN int) error {
 				chal := v.chal
 				if chal.Kind == "c" && chal.N == 0 {
 					chal.N = before.rev.RevisionNumber + 1
+					chal.Cid = w.cid
 				}
-				res := w.s.Free(rhpx.FreeArgs{Cid: cid, Prices: ps, Chal: chal, Indices: nis, Second: v.second, Bang: v.bang, NewIDs: expect})
+				res := w.s.Free(rhpx.FreeArgs{Cid: w.cid, Prices: ps, Chal: chal, Indices: nis, Second: v.second, Bang: v.bang, NewIDs: expect})
 				c.Op(res.Op, res.Impl)
 				if v.commit && ok {
 					w.check(c, "free", v.name, before, res, false, expect)
@@ -679,7 +693,7 @@ func (w *worker) history(name string, rng *vh.RNG, steps, maxN int) error {
 				}
 				c.Tags = append(c.Tags, "fault:"+v.name)
 			default:
-				res, _ := w.s.CFree(cid, w.s.GoodPrices(), is)
+				res, _ := w.s.CFree(w.cid, w.s.GoodPrices(), is)
 				c.Op(res.Op, res.Impl)
 				ok := true
 				for _, i := range is {
@@ -713,6 +727,133 @@ func (w *worker) history(name string, rng *vh.RNG, steps, maxN int) error {
 }
 
 // ---------------------------------------------------------------------------------------------
+
+
+// refreshInto refreshes (or renews) the worker's contract through the real client, renders the
+// outcome for the model (Op.renew), mines the renewal and makes the new contract the one under
+// test.  The oracle then applies to the NEW contract id: its stored roots must be exactly the old
+// ones, hash to its Merkle root and number its file size — also when capacity exceeds the file size.
+func (w *worker) refreshInto(c *vh.Case, kind string) error {
+	ctx := context.Background()
+	settings, err := rhp4.RPCSettings(ctx, w.rig.T)
+	if err != nil {
+		return err
+	}
+	old := w.cid
+	st, _ := w.rig.HostState(w.s.CID(old))
+	fs := &rhpx.FundSigner{W: w.rig.W, PK: rhpx.Key(rhpx.RenterKeyID)}
+	var contract rhp4.ContractRevision
+	var set rhp4.TransactionSet
+	switch kind {
+	case "renew":
+		var r rhp4.RPCRenewContractResult
+		r, err = rhp4.RPCRenewContract(ctx, w.rig.T, w.rig.CM, fs, w.rig.CM.TipState(), settings.Prices, settings.WalletAddress, st.Revision, proto4.RPCRenewContractParams{
+			ContractID: w.s.CID(old), Allowance: types.Siacoins(100000), Collateral: types.Siacoins(200000), ProofHeight: st.Revision.ProofHeight + 2})
+		contract, set = r.Contract, r.RenewalSet
+	case "refresh-full":
+		var r rhp4.RPCRefreshContractResult
+		r, err = rhp4.RPCRefreshContractFullRollover(ctx, w.rig.T, w.rig.CM, fs, w.rig.CM.TipState(), settings.Prices, settings.WalletAddress, st.Revision, proto4.RPCRefreshContractParams{
+			ContractID: w.s.CID(old), Allowance: types.Siacoins(1000), Collateral: types.Siacoins(2000)})
+		contract, set = r.Contract, r.RenewalSet
+	default:
+		var r rhp4.RPCRefreshContractResult
+		r, err = rhp4.RPCRefreshContractPartialRollover(ctx, w.rig.T, w.rig.CM, fs, w.rig.CM.TipState(), settings.Prices, settings.WalletAddress, st.Revision, proto4.RPCRefreshContractParams{
+			ContractID: w.s.CID(old), Allowance: types.Siacoins(100000), Collateral: types.Siacoins(200000)})
+		contract, set = r.Contract, r.RenewalSet
+	}
+	w.rig.T.WaitIdle()
+	w.rig.Rec.Take()
+	if err != nil {
+		return fmt.Errorf("%s through the real client failed: %w", kind, err)
+	}
+	newc := old + 1
+	w.s.AddContract(newc, contract.ID)
+	nst, err := w.rig.HostState(contract.ID)
+	if err != nil {
+		c.Oracle("renewal-missing:"+kind, "the host does not hold the %s contract: %v", kind, err)
+		return nil
+	}
+	c.Op(fmt.Sprintf("renew %d %d %s %d %d", old, newc, rhpx.Body(nst.Revision, w.cur), rhpx.KeyID(st.Revision.RenterPublicKey), rhpx.KeyID(st.Revision.HostPublicKey)), "ok []")
+	if _, err := w.rig.CM.AddV2PoolTransactions(set.Basis, set.Transactions); err != nil {
+		c.Oracle("renewal-set-invalid:"+kind, "%s set rejected by the pool: %v", kind, err)
+	}
+	if err := w.rig.Mine(1); err != nil {
+		return err
+	}
+	tl, ti := w.s.TipLine()
+	c.Op(tl, ti)
+	// the new contract is the one under test from here on
+	w.cid = newc
+	fc := nst.Revision
+	if !eqInts(rhpx.RootIDList(nst.Roots), w.cur) {
+		c.Oracle("list-model:"+kind+":carry-over", "after the %s the new contract's roots are %v, the old contract's were %v", kind, rhpx.RootIDList(nst.Roots), w.cur)
+	}
+	if proto4.MetaRoot(nst.Roots) != fc.FileMerkleRoot {
+		c.Oracle("root-commit:"+kind+":ok", "after the %s: MetaRoot(roots of the new contract) != its FileMerkleRoot (%d roots, filesize %d, capacity %d)", kind, len(nst.Roots), fc.Filesize, fc.Capacity)
+	}
+	if uint64(len(nst.Roots))*proto4.SectorSize != fc.Filesize {
+		c.Oracle("size-commit:"+kind+":ok", "after the %s: the new contract has %d roots but Filesize %d (capacity %d)", kind, len(nst.Roots), fc.Filesize, fc.Capacity)
+	}
+	w.observe(c)
+	return nil
+}
+
+// refreshCase: append k, free j (so that capacity exceeds the file size), refresh or renew, then use
+// the new contract: list it (with read-back), append to it, free from it.
+func (w *worker) refreshCase(k, j int, kind, followup string) error {
+	if err := w.resize(k); err != nil {
+		return err
+	}
+	if j > 0 {
+		var is []uint64
+		for i := 0; i < j; i++ {
+			is = append(is, uint64(k-1-i))
+		}
+		res, _ := w.s.CFree(w.cid, w.s.GoodPrices(), is)
+		if res.Cls != "ok" {
+			return fmt.Errorf("setup free failed: %s", res.Impl)
+		}
+		w.cur = w.cur[:k-j]
+	}
+	stored := []int{30, 31}
+	c := w.begin(fmt.Sprintf("%s-k%d-j%d-%s", kind, k, j, followup), stored)
+	if err := w.refreshInto(c, kind); err != nil {
+		c.Oracle("harness-setup", "%v", err)
+		w.add(c)
+		return nil
+	}
+	n := len(w.cur)
+	before := w.snap()
+	switch followup {
+	case "roots":
+		if n > 0 {
+			w.listAndRead(c, 0, uint64(n), true)
+		}
+	case "append":
+		res, _ := w.s.CAppend(w.cid, w.s.GoodPrices(), stored)
+		c.Op(res.Op, res.Impl)
+		if res.Cls != "ok" {
+			c.Oracle("client-append-rejected", "append to the %s contract failed: %s", kind, res.Impl)
+		}
+		w.check(c, "append", "client", before, res, res.Cls != "ok", append(append([]int(nil), w.cur...), stored...))
+	case "free":
+		if n > 0 {
+			res, _ := w.s.CFree(w.cid, w.s.GoodPrices(), []uint64{0})
+			c.Op(res.Op, res.Impl)
+			if res.Cls != "ok" {
+				c.Oracle("client-free-rejected", "free on the %s contract failed: %s", kind, res.Impl)
+			}
+			w.check(c, "free", "client", before, res, res.Cls != "ok", swapRemove(w.cur, 0))
+		}
+	}
+	w.observe(c)
+	if len(w.cur) > 0 {
+		w.listAndReadN(c, 0, uint64(len(w.cur)), true, 1)
+	}
+	c.Nontrivial = true
+	w.add(c, "kind:"+kind, fmt.Sprintf("slack:%d", j), "followup:"+followup)
+	return nil
+}
 
 type job func(w *worker) error
 
@@ -809,6 +950,18 @@ func Run(r *vh.Run) {
 					jobs = append(jobs, func(w *worker) error { return w.window(n, uint64(off), uint64(l), false) })
 				}
 				jobs = append(jobs, func(w *worker) error { return w.window(n, uint64(off), uint64(l), true) })
+			}
+		}
+	}
+	// (3b) free-then-refresh/renew: capacity above the file size must not leak into the new contract's roots
+	for _, kind := range []string{"refresh-full", "refresh-partial", "renew"} {
+		for _, kj := range [][2]int{{3, 1}, {5, 2}, {4, 4}, {2, 0}} {
+			for _, f := range []string{"roots", "append", "free"} {
+				kind, kj, f := kind, kj, f
+				if r.Quick() && kind == "renew" && f != "roots" {
+					continue
+				}
+				jobs = append(jobs, func(w *worker) error { return w.refreshCase(kj[0], kj[1], kind, f) })
 			}
 		}
 	}
